@@ -57,19 +57,34 @@ func c13extra(p *Program, r *Report, scope []*ssa.Function, inScope map[*ssa.Fun
 								okAll, how = false, "some iteration reaches the next item without hashing this one (an item of "+ia.X.Name()+" can be skipped)"
 							}
 						}
-						// the loop visits all of the parameter: index φ(-1,+1) tested against len(param)
+						// the loop visits all of the parameter: `range` (index φ(-1,+1), tested after the increment) or
+						// `for i := 0; i < len(p); i++` (index φ(0,+1)), tested against len(param)
 						full := false
 						if iff, ok := lastInstr(h).(*ssa.If); ok {
 							if c, ok := iff.Cond.(*ssa.BinOp); ok && c.Op == token.LSS && c.X == ia.Index {
 								if ln, ok := c.Y.(*ssa.Call); ok && isBuiltin(&ln.Call, "len") && ln.Call.Args[0] == ia.X {
+									var phi *ssa.Phi
+									want := int64(0)
 									if inc, ok := ia.Index.(*ssa.BinOp); ok && inc.Op == token.ADD {
-										if phi, ok := inc.X.(*ssa.Phi); ok && phi.Block() == h {
-											for _, e := range phi.Edges {
-												if k, ok := constInt(e); ok && k == -1 {
-													full = true
+										phi, _ = inc.X.(*ssa.Phi)
+										want = -1
+									} else {
+										phi, _ = ia.Index.(*ssa.Phi)
+									}
+									if phi != nil && phi.Block() == h && len(phi.Edges) == 2 {
+										okInit, okStep := false, false
+										for k, e := range phi.Edges {
+											if h.Dominates(h.Preds[k]) {
+												if inc, ok := e.(*ssa.BinOp); ok && inc.Op == token.ADD && (inc.X == ssa.Value(phi)) {
+													if k1, ok := constInt(inc.Y); ok && k1 == 1 {
+														okStep = true
+													}
 												}
+											} else if k0, ok := constInt(e); ok && k0 == want {
+												okInit = true
 											}
 										}
+										full = okInit && okStep
 									}
 								}
 							}
